@@ -279,9 +279,11 @@ pub fn parse_filesize(s: &str) -> Option<u64> {
     }
 
     if length > 1 && string.ends_with("b") {
-        return match &string[..(length - 1)].parse::<u64>() {
-            Ok(size) => Some(size * 1),
-            _ => None,
+        // (like the other units, bytes may be written with a fraction: `1536.0b`)
+        let number = &string[..(length - 1)];
+        return match number.parse::<u64>() {
+            Ok(size) => Some(size),
+            _ => number.parse::<f64>().ok().map(|size| size as u64),
         };
     }
 
